@@ -1,7 +1,220 @@
-/- Line-protocol engine for C16 — stub, to be filled in. -/
-import CV.Proto
+/-
+Line-protocol engine for C16 (anti-entropy). See go/overlay/internal/verifharness/c16.
+
+Engine state: the agent's configuration, its local state and the node's catalog entries.
+Every operation prints its result followed by the canonical dump of both sides:
+  n=<nodeInfoInSync> S=<local services> C=<local checks> | N=<catalog node> s=<services> c=<checks>
+lists sorted by id; a local record is `id!G!insync` (placeholder) or
+`id!E!<def>!tok!isLocal!inSync!deleted`; a service definition is `name;tags;eto;port;ta`
+(tags joined by `+`, tagged addresses `key~val` joined by `+`), a check definition
+`sid;status;sname;stags`.
+-/
+import CV.AE
 namespace CV.Engine.C16
-open CV
-def step (_ : Unit) (_toks : List String) : Unit × String := ((), "bad-op")
-def engine : Engine := { State := Unit, init := (), step := step }
+open CV CV.AE
+
+structure EState where
+  cfg : Cfg
+  l : Local
+  c : Cat
+
+def init : EState := ⟨⟨0, "", ""⟩, Local.empty, Cat.empty⟩
+
+/-! ### decoding -/
+
+def decPlus (tok : String) : List String := if tok == "-" then [] else tok.splitOn "+"
+def encPlus (l : List String) : String := if l.isEmpty then "-" else "+".intercalate l
+
+def decTags (tok : String) : Option (List String) := (decPlus tok).mapM decS
+
+def decTa (tok : String) : Option (List (String × Nat)) :=
+  (decPlus tok).mapM fun kv =>
+    match kv.splitOn "~" with
+    | [k, v] => do let k ← decS k; let v ← v.toNat?; pure (k, v)
+    | _ => none
+
+def decSvcDef (tok : String) : Option SvcDef :=
+  match tok.splitOn ";" with
+  | [n, t, e, p, a] => do
+      let name ← decS n; let tags ← decTags t; let eto ← decBool e; let port ← p.toNat?; let ta ← decTa a
+      pure ⟨name, tags, eto, port, ta⟩
+  | _ => none
+
+def decChkDef (tok : String) : Option ChkDef :=
+  match tok.splitOn ";" with
+  | [s, st, n, t] => do
+      let sid ← decS s; let status ← st.toNat?; let sname ← decS n; let stags ← decTags t
+      pure ⟨sid, status, sname, stags⟩
+  | _ => none
+
+def decChkItem (tok : String) : Option (Id × ChkDef) :=
+  match tok.splitOn "!" with
+  | [k, d] => do let k ← decS k; let d ← decChkDef d; pure (k, d)
+  | _ => none
+
+def decOutcome (t : String) : Option Outcome :=
+  if t == "ok" then some .ok else if t == "denied" then some .denied
+  else if t == "fail" then some .fail else if t == "lost" then some .lost else none
+
+structure FaultList where
+  readSvcs : Bool := true
+  readChks : Bool := true
+  node : Outcome := .ok
+  svc : List (Id × Outcome) := []
+  chk : List (Id × Outcome) := []
+
+/-- `rs!=!fail`, `rs!=!nomethod` (fallback to Catalog.NodeServices, behaves as ok), `rc!=!fail`,
+    `n!=!<outcome>`, `s!<id>!<outcome>`, `c!<id>!<outcome>` -/
+def decFault (fl : FaultList) (tok : String) : Option FaultList :=
+  match tok.splitOn "!" with
+  | [kind, id, o] =>
+    if kind == "rs" then
+      if o == "fail" then some { fl with readSvcs := false } else if o == "nomethod" then some fl else none
+    else if kind == "rc" then
+      if o == "fail" then some { fl with readChks := false } else none
+    else do
+      let id ← decS id
+      let o ← decOutcome o
+      if kind == "n" then pure { fl with node := o }
+      else if kind == "s" then pure { fl with svc := fl.svc ++ [(id, o)] }
+      else if kind == "c" then pure { fl with chk := fl.chk ++ [(id, o)] }
+      else none
+  | _ => none
+
+def decFaults (tok : String) : Option Faults := do
+  let fl ← (decList tok).foldlM decFault {}
+  pure { readSvcs := fl.readSvcs, readChks := fl.readChks, node := fl.node
+         svc := fun id => match AMap.get? fl.svc id with | some o => o | none => .ok
+         chk := fun id => match AMap.get? fl.chk id with | some o => o | none => .ok }
+
+def decIds (tok : String) : Option (List Id) := (decList tok).mapM decS
+
+/-! ### canonical dump -/
+
+def insertByKey {α : Type} (x : String × α) : List (String × α) → List (String × α)
+  | [] => [x]
+  | y :: ys => if x.1 < y.1 then x :: y :: ys else y :: insertByKey x ys
+
+def sortByKey {α : Type} : List (String × α) → List (String × α)
+  | [] => []
+  | x :: xs => insertByKey x (sortByKey xs)
+
+def encTags (l : List String) : String := encPlus (l.map encS)
+def encTa (l : List (String × Nat)) : String := encPlus (l.map fun p => encS p.1 ++ "~" ++ toString p.2)
+
+def encSvcDef (d : SvcDef) : String :=
+  ";".intercalate [encS d.name, encTags d.tags, encBool d.eto, toString d.port, encTa d.ta]
+
+def encChkDef (d : ChkDef) : String :=
+  ";".intercalate [encS d.sid, toString d.status, encS d.sname, encTags d.stags]
+
+def encEnt {δ : Type} (encD : δ → String) (p : Id × Ent δ) : String :=
+  match p.2 with
+  | .ghost b => "!".intercalate [encS p.1, "G", encBool b]
+  | .ent d tok loc b del => "!".intercalate [encS p.1, "E", encD d, encS tok, encBool loc, encBool b, encBool del]
+
+def dump (l : Local) (c : Cat) : String :=
+  let ls := (sortByKey l.svcs).map (encEnt encSvcDef)
+  let lc := (sortByKey l.chks).map (encEnt encChkDef)
+  let cs := (sortByKey c.svcs).map fun p => encS p.1 ++ "!" ++ encSvcDef p.2
+  let cc := (sortByKey c.chks).map fun p => encS p.1 ++ "!" ++ encChkDef p.2
+  let cn := match c.node with | none => "-" | some v => toString v
+  s!"n={encBool l.nodeInSync} S={encList ls} C={encList lc} | N={cn} s={encList cs} c={encList cc}"
+
+def encRes : Res → String
+  | .ok => "ok" | .err => "err" | .panic => "panic"
+
+def out (s : EState) (res : String) : EState × String := (s, res ++ " " ++ dump s.l s.c)
+
+/-- an external writer (drift) registers through the same endpoint; it never touches node info
+    unless it has to create the node (then with foreign node info `0`) -/
+def driftReg (s : EState) (svc : Option (Id × SvcDef)) (chks : List (Id × ChkDef)) : EState × String :=
+  match s.c.register { nodeVal := 0, skipNode := true, svc := svc, chks := chks } with
+  | none => out s "err"
+  | some c' => out { s with c := c' } "ok"
+
+def step (s : EState) (toks : List String) : EState × String :=
+  match toks with
+  | ["reset", v, ct, ut] =>
+    match v.toNat?, decS ct, decS ut with
+    | some v, some ct, some ut => ({ cfg := ⟨v, ct, ut⟩, l := Local.empty, c := Cat.empty }, "ok")
+    | _, _, _ => (s, "bad-op")
+  | ["addsvc", id, d, tok, loc, cs] =>
+    match decS id, decSvcDef d, decS tok, decBool loc, (decList cs).mapM decChkItem with
+    | some id, some d, some tok, some loc, some cs =>
+      let (r, l') := addSvc s.l id d tok loc cs
+      out { s with l := l' } (encRes r)
+    | _, _, _, _, _ => (s, "bad-op")
+  | ["addchk", k, d, tok, loc] =>
+    match decS k, decChkDef d, decS tok, decBool loc with
+    | some k, some d, some tok, some loc =>
+      let (r, l') := addChk1 s.l k d tok loc
+      out { s with l := l' } (encRes r)
+    | _, _, _, _ => (s, "bad-op")
+  | ["rmsvc", id, ks] =>
+    match decS id, decIds ks with
+    | some id, some ks =>
+      let (r, l') := rmSvc s.l id ks
+      out { s with l := l' } (encRes r)
+    | _, _ => (s, "bad-op")
+  | ["rmchk", k] =>
+    match decS k with
+    | some k =>
+      let (r, l') := rmChk s.l k
+      out { s with l := l' } (encRes r)
+    | _ => (s, "bad-op")
+  | ["updchk", k, st] =>
+    match decS k, st.toNat? with
+    | some k, some st => out { s with l := updChk s.l k st } "ok"
+    | _, _ => (s, "bad-op")
+  | ["dsvc", id, d] =>
+    match decS id, decSvcDef d with
+    | some id, some d => driftReg s (some (id, d)) []
+    | _, _ => (s, "bad-op")
+  | ["dchk", k, d] =>
+    match decS k, decChkDef d with
+    | some k, some d => driftReg s none [(k, d)]
+    | _, _ => (s, "bad-op")
+  | ["drmsvc", id] =>
+    match decS id with
+    | some id => out { s with c := s.c.deregSvc id } "ok"
+    | _ => (s, "bad-op")
+  | ["drmchk", k] =>
+    match decS k with
+    | some k => out { s with c := s.c.deregChk k } "ok"
+    | _ => (s, "bad-op")
+  | ["dnode", v] =>
+    match v.toNat? with
+    | some v => out { s with c := s.c.regNode v false } "ok"
+    | _ => (s, "bad-op")
+  | ["drmnode"] => out { s with c := s.c.deregNode } "ok"
+  | [kind, fs, so, co] =>
+    if kind == "full" || kind == "partial" then
+      match decFaults fs, decIds so, decIds co with
+      | some f, some so, some co =>
+        let r := if kind == "full" then syncFull s.cfg ⟨so, co⟩ f s.l s.c
+                 else syncChanges s.cfg ⟨so, co⟩ f s.l s.c
+        out { s with l := r.l, c := r.c } (if r.ok then "ok" else "err")
+      | _, _, _ => (s, "bad-op")
+    else (s, "bad-op")
+  | ["ae", st, paused, ev, ok] =>
+    let st? : Option AeState :=
+      if st == "fullSync" then some .fullSync else if st == "partialSync" then some .partialSync
+      else if st == "retryFullSync" then some .retryFullSync else if st == "done" then some .done else none
+    let ev? : Option AeEvent :=
+      if ev == "syncFullNotif" then some .syncFullNotif else if ev == "syncFullTimer" then some .syncFullTimer
+      else if ev == "syncChangesNotif" then some .syncChangesNotif else if ev == "shutdown" then some .shutdown else none
+    match st?, decBool paused, ev?, decBool ok with
+    | some st, some p, some ev, some ok =>
+      match aeNext st p ev ok with
+      | none => (s, "panic")
+      | some (a, n) =>
+        let a := match a with | .idle => "none" | .runFull => "full" | .runPartial => "partial"
+        let n := match n with | .fullSync => "fullSync" | .partialSync => "partialSync" | .retryFullSync => "retryFullSync" | .done => "done"
+        (s, a ++ " " ++ n)
+    | _, _, _, _ => (s, "bad-op")
+  | _ => (s, "bad-op")
+
+def engine : Engine := { State := EState, init := init, step := step }
+
 end CV.Engine.C16
